@@ -85,8 +85,8 @@ def worker(pid, tier, seed, shard, nshards, out, only=None):
 def load_ledger():
     import glob
     led = {'known': [], 'fixed': []}
-    # known_findings.json is the ledger; findings/*.json are per-property parts of the same committed ledger
-    for p in [os.path.join(VERIF, 'known_findings.json')] + sorted(glob.glob(os.path.join(VERIF, 'findings', '*.json'))):
+    # known_findings.json is the single committed ledger
+    for p in [os.path.join(VERIF, 'known_findings.json')] + []:
         if os.path.exists(p):
             for attempt in range(3):
                 try:
